@@ -2,6 +2,7 @@
 # usage: try_seed.sh <dir-with-patch.diff> <PROP> [govc args]
 # applies the patch to /repo, runs the property's check, and undoes the patch straight afterwards.
 d=$1; p=$2; shift 2
+if [ -n "$(git -C /repo status --porcelain)" ]; then echo "try_seed: /repo has uncommitted changes - commit or stash them first (this script ends with git checkout -- .)"; exit 3; fi
 git -C /repo apply "$d/patch.diff" || exit 2
 /verif/bin/govc check "$p" --verif /tmp/try-seed-out "$@" | grep -E "^(VIOLATION|KNOWN-FINDING|govc:)" | cut -c1-400
 git -C /repo checkout -- .
